@@ -87,6 +87,11 @@ CHECKS = {
         text="C09_root_is_step, C09_equals_collocation_theta1, C09_outputs_every_step and C09_delay_weight are proved for every equation list, state, step size and delay; generated Modelica models (states, algebraics, negated aliases, nominals, parameters, inputs, bilinear terms, integer and non-integer delays) are compiled by pymoca and run through SimulationProblem+CSVMixin; after initialize() and after each update() all variables are read back and the model equations with der = (x(t+dt)-x(t))/dt and inputs at t+dt are evaluated in Coq on their rational images, the whole trajectory is substituted into the theta = 1 collocation rows of Transcribe.v, delayed variables, exported CSV, fixed starts, input timing, aliases and set_var/get_var round trips are checked, and an unsolvable step must raise.",
         note="Trusted: Coq kernel + vm_compute; harness; pymoca (compiles the generated text); the rootfinder / IPOPT initialisation are judged by their results (residual <= 1e-6 relative). The start-value precedence of initialize() is C14. No axioms. Two genuine defects repaired in /repo (22abefd signed nominals through negated aliases, b01b542 delay in parameter-free models).",
         ref="DESIGN.md §5 C09"),
+    "C14": dict(
+        technique="Coq proof (bounds are the intersection of declared, inherited and file bounds; fixed start = initial condition; seed rule; positive nominal magnitude; discreteness; roles; override chains; simulator start precedence) + correspondence of the Gallina declaration semantics against real pymoca-compiled models loaded through ModelicaMixin/CSVMixin and SimulationProblem",
+        text="18 theorems C14_* are proved for every variable declaration, parameter vector and other bound pair; generated Modelica models (Real/Integer/Boolean variables of every role, min/max/start/nominal as constants or parameter expressions, fixed, output, a negated alias) with generated bound / history / seed series, parameters.csv and code overrides are compiled by pymoca and observed through dae_variables, output_variables, bounds() at every time, history(), seed(), parameters(), variable_nominal(), variable_is_discrete(); simulation models with initial_state.csv and seed() overrides are observed through get_var after initialize(); everything is compared with Modelica.v evaluated in Coq.",
+        note="Trusted: Coq kernel + vm_compute; harness; pymoca (compiles the generated text and merges alias attributes). Whether a simulator start value is imposed or a soft target is not observed separately. No axioms. Three genuine defects repaired in /repo (f68aa34 signed nominal through negated alias, 5cbe9db file bound series replaced the declared min/max, 18a2784 variable type through negated alias raised TypeError).",
+        ref="DESIGN.md §5 C14"),
 }
 
 PENDING_REASON = "check not built yet (work in progress; see DESIGN.md §7 build order) — not claimed until its Coq model, theorems and correspondence check run clean on the unchanged tree"
